@@ -147,7 +147,7 @@ def r1_area(ctx):
                 if sub is None:
                     loads["P"].append(parts)
                     return NotImplemented
-                if len(parts) == 2 and eq(parts[1], sub["col"]):
+                if (len(parts) == 2 and sub["col"] is not None and eq(parts[1], sub["col"])) or (len(parts) == 1 and sub["col"] is None and unslice(parts[0]) is None):
                     c = const_of(parts[0] - sub["kseg"])
                     if c == sub["c0"]:
                         return p1
@@ -168,23 +168,26 @@ def r1_area(ctx):
         # roles of the two loops: the counter in the Freq loads is the segment counter, the one in the PSD column index the column counter
         fo = [_counter_offset(ix, R0.loops) for ix in loads["F"] if unslice(ix) is None]          # (a slice is an intermediate: its elements are loaded after it)
         el = [pr for pr in loads["P"] if len(pr) == 2 and all(unslice(x) is None for x in pr)]          # element loads (rows / columns / slices are intermediates)
+        vector = not el          # no element loads: whole rows PSD[k] are used (all columns at once)
+        if vector:
+            el = [pr + [None] for pr in loads["P"] if len(pr) == 1 and unslice(pr[0]) is None]
         po = [(_counter_offset(pr[0], R0.loops), pr[1]) for pr in el]
         if not fo or not el or any(l is None for l, _ in fo) or any(l is None for (l, _), _ in po):
             ctx.error("area: the loads of the break-point frequencies / PSD values inside the segment loops", fn, {"Freq": [_short(x) for x in loads["F"]]})
             return
         seg = fo[0][0]
-        cols = {S._key(c): c for _, c in po}
+        cols = {S._key(c) if c is not None else None: c for _, c in po}
         col, cl, cc = None, None, None
-        for c in cols.values():
+        for c in ([] if vector else cols.values()):
             l_, c_ = _counter_offset(c, R0.loops)
             if l_ is not None and l_ is not seg:
                 col, cl, cc = c, l_, c_
                 break
-        if col is None:
+        if col is None and not vector:
             col = next(iter(cols.values()))
         ints = lambda xs: sorted({int(c) if c.denominator == 1 else float(c) for c in xs})      # noqa  (JSON-safe)
         g = {"seg": seg, "foff": ints(c for _, c in fo), "poff": ints(c for (_, c), _ in po), "one_seg": all(l is seg for l, _ in fo) and all(l is seg for (l, _), _ in po),
-             "ncol": len(cols), "col": col, "colloop": cl, "coloff": None if cc is None else int(cc)}
+             "ncol": len(cols), "col": col, "colloop": cl, "coloff": None if cc is None else int(cc), "vector": vector}
         c0 = g["foff"][0]
         R, _ = evaluate(arm, {"kseg": seg.k, "c0": c0, "col": col})
         res[arm] = (R, g)
@@ -194,8 +197,9 @@ def r1_area(ctx):
     ok = g["one_seg"] and g["foff"] == [0, 1] and any(eq(seg.n, w) for w in size_forms)
     ctx.check(ok, "area: every one of the Freq.size - 1 segments is visited (the segment counter runs over 0 .. size - 2 and reads break points k and k + 1)", seg.node,
               None if ok else {"trip count": _short(seg.n), "offsets read": g["foff"]})
-    ok = cl is not None and g["coloff"] == 0 and eq(cl.n, R.E("PSD.shape[1]"))
-    ctx.check(ok, "area: every PSD column is visited", cl.node if cl is not None else fn, None if ok else {"trip count": _short(cl.n) if cl is not None else None})
+    ok = all(r[1]["vector"] for r in res.values()) or (cl is not None and g["coloff"] == 0 and eq(cl.n, R.E("PSD.shape[1]")))
+    ctx.check(ok, "area: every PSD column is visited (a loop over all columns, or whole rows of the PSD array at once)", cl.node if cl is not None else seg.node,
+              None if ok else {"trip count": _short(cl.n) if cl is not None else None})
     ok = all(len(r[1]["foff"]) == 2 and r[1]["foff"][1] == r[1]["foff"][0] + 1 and r[1]["poff"] == r[1]["foff"] and r[1]["ncol"] == 1 and r[1]["one_seg"] for r in res.values())
     ctx.check(ok, "area: the segment formulas read the two end points of the segment - consecutive break points k, k + 1 of Freq and rows k, k + 1 of the same PSD column",
               seg.node, None if ok else {"Freq offsets": g["foff"], "PSD row offsets": g["poff"], "PSD columns": g["ncol"]})
@@ -207,7 +211,12 @@ def r1_area(ctx):
         rv = Ra.ret()
         chain, body = _unwrap_loops(rv)
         st = un(body, "store") if israt(body) else None
-        if st is None or len(chain) < 2:
+        if st is None and ga["vector"] and israt(body):
+            # whole-array accumulation  acc <- acc + areas of the segment for all columns
+            car = [av for av, nm, a in top_atoms(body) if nm == "carried"]
+            if len(car) == 1 and not find_atoms(body - car[0], lambda n, a: n == "carried"):
+                st = (car[0], None, body)
+        if st is None or len(chain) < (1 if ga["vector"] else 2):
             if israt(rv) and not _undecided([rv]) and not find_atoms(rv, lambda n, a: n in ("loopres", "carried") or n.startswith("call:") or n == "apply"):
                 ctx.fail("area: segment areas are accumulated per column, starting from zero (additivity over segments): acc[j] <- acc[j] + area(segment, column j)", Ra.ret_node(),
                          {"returned": _short(rv), "consequence": "the value returned does not depend on the segment loops at all"})
@@ -215,11 +224,13 @@ def r1_area(ctx):
                 ctx.error("area: the returned value is an array accumulated inside the segment and column loops", Ra.ret_node(), _short(rv))
             return
         old, jx, val = st
-        own = Ra.ev.mk_idx(old, jx)
+        own = Ra.ev.mk_idx(old, jx) if jx is not None else old
         inc = val - own
         clean = not find_atoms(inc, lambda n, a: n in ("carried", "loopres", "store"))
-        accs[arm] = (un(_strip_carried(old), "zeros") is not None, eq(jx, ga["col"]), clean, {S._key(k) for k, _ in chain} >= {S._key(ga["seg"].k), S._key(ga["colloop"].k)} if ga["colloop"] else False,
-                     next((c.node for c in Ra.cells if eq(c.new, body)), fn))
+        inloops = {S._key(k) for k, _ in chain}
+        accs[arm] = (un(_strip_carried(old), "zeros") is not None, (jx is None and ga["vector"]) or (jx is not None and eq(jx, ga["col"])), clean,
+                     S._key(ga["seg"].k) in inloops and (ga["vector"] or (ga["colloop"] is not None and S._key(ga["colloop"].k) in inloops)),
+                     next((c.node for c in Ra.cells if eq(c.new, body)), ga["seg"].node))
         incs[arm] = inc
         ts = [t for t in Ra.sh.tests if t[3] and israt(t[0]) and t[1] is not None and not (is_sym(t[0], "True") or is_sym(t[0], "False")) and _leaves_undecided(Ra, t[0])]
         keys = {S._key(t[0]) for t in ts}
